@@ -91,3 +91,14 @@ def moralized(self):
         for u, v in combinations(self.directed.predecessors(node), 2):
             rv.add_undirected_edge(u, v)
     return rv
+
+
+def ancestors_after_intervening(self, interventions, outcomes):
+    # An(Y) in the graph with every arrow INTO an intervened node removed -- unconditionally: a node of X without parents loses nothing, but the
+    # other nodes of X still lose theirs
+    return self.remove_in_edges(interventions).ancestors_inclusive(outcomes)
+
+
+def without_effect_on(self, interventions, outcomes):
+    # (V ∖ X) ∖ An(Y) in that same mutilated graph
+    return set(self.nodes()) - interventions - self.remove_in_edges(interventions).ancestors_inclusive(outcomes)
